@@ -105,7 +105,40 @@ func c16DrawMsg(rt *rapid.T) c16Msg {
 	return m
 }
 
-func c16DrawOp(rt *rapid.T, first bool, live *[][2]int) c16Op {
+// c16MsgFor draws a message that one of the session's allow-path entries
+// covers, or (for path entries) a near miss on a sibling realm.
+func c16MsgFor(rt *rapid.T, allow []int) c16Msg {
+	m := c16DrawMsg(rt)
+	if len(allow) == 0 {
+		return m
+	}
+	exec := []string{"take", "grow", "take", "nope"}
+	switch e := rapid.SampledFrom(allow).Draw(rt, "entry"); e {
+	case 1:
+		m.Kind = rapid.SampledFrom(exec).Draw(rt, "ekind")
+	case 2:
+		m.Kind = "run"
+	case 3:
+		m.Kind = "send"
+	case 5, 6, 7:
+		m.Kind = rapid.SampledFrom(exec).Draw(rt, "ekind")
+		m.Realm = rapid.SampledFrom(map[int][]int{5: {0, 1, 2, 1}, 6: {2, 0, 2}, 7: {1, 0, 1}}[e]).Draw(rt, "near")
+	case 8:
+		m.Kind = rapid.SampledFrom(exec).Draw(rt, "ekind")
+	}
+	return m
+}
+
+// c16Gen is generator-side bookkeeping (what the history created so far), used
+// only to aim traffic at live sessions and at expiry / period boundaries.
+type c16Gen struct {
+	clock   int64
+	created map[[2]int]int64
+	expires map[[2]int]int64
+	period  map[[2]int]int64
+}
+
+func c16DrawOp(rt *rapid.T, first bool, live *[][2]int, allowOf map[[2]int][]int, g *c16Gen) c16Op {
 	o := c16Op{}
 	kinds := []string{"stx", "stx", "stx", "stx", "stx", "stx", "stx", "create", "stx", "stx", "stx", "stx", "mtx", "stx", "revoke", "stx", "stx", "revokeall", "stx", "stx"}
 	if first || len(*live) == 0 {
@@ -138,6 +171,23 @@ func c16DrawOp(rt *rapid.T, first bool, live *[][2]int) c16Op {
 		}
 	}
 	o.Fee = rapid.SampledFrom([]int64{1, 1, 50_000, 200_000}).Draw(rt, "fee")
+	if k := [2]int{o.Master, o.Sess}; o.Kind == "stx" && isLive(o.Master, o.Sess) >= 0 {
+		// sometimes step the clock exactly onto (or next to) the session's expiry or a period boundary
+		var targets []int64
+		if e := g.expires[k]; e > 0 && g.created[k]+e > g.clock {
+			targets = append(targets, g.created[k]+e-g.clock)
+		}
+		if p := g.period[k]; p > 0 {
+			targets = append(targets, p-(g.clock-g.created[k])%p)
+		}
+		if len(targets) > 0 && rapid.IntRange(0, 3).Draw(rt, "boundary") == 2 {
+			dt := rapid.SampledFrom(targets).Draw(rt, "target") + rapid.SampledFrom([]int64{0, 0, -1, 1}).Draw(rt, "off")
+			if dt >= 1 {
+				o.DT = dt
+			}
+		}
+	}
+	g.clock += o.DT
 	switch o.Kind {
 	case "create":
 		o.Limit = rapid.SampledFrom([]int64{1_000_000, 300_000, 3_000_000, 0, 10_000_000}).Draw(rt, "limit")
@@ -145,6 +195,14 @@ func c16DrawOp(rt *rapid.T, first bool, live *[][2]int) c16Op {
 		o.Period = rapid.SampledFrom([]int64{0, 0, 50, 400}).Draw(rt, "period")
 		o.ExpiresIn = rapid.SampledFrom([]int64{0, 0, 0, 100, 1000, 100_000}).Draw(rt, "expires")
 		n := rapid.IntRange(1, 3).Draw(rt, "nallow")
+		if rapid.IntRange(0, 3).Draw(rt, "pathonly") == 2 {
+			// a session restricted to one realm path (plus, sometimes, plain sends)
+			o.Allow = []int{rapid.SampledFrom([]int{5, 6, 7, 5}).Draw(rt, "pathentry")}
+			if rapid.Bool().Draw(rt, "plussend") {
+				o.Allow = append(o.Allow, 3)
+			}
+			n = 0
+		}
 		for i := 0; i < n; i++ {
 			switch rapid.IntRange(0, 11).Draw(rt, "allowkind") {
 			case 7:
@@ -161,6 +219,9 @@ func c16DrawOp(rt *rapid.T, first bool, live *[][2]int) c16Op {
 		}
 		if wellFormed && isLive(o.Master, o.Sess) < 0 {
 			*live = append(*live, [2]int{o.Master, o.Sess})
+			k := [2]int{o.Master, o.Sess}
+			allowOf[k] = o.Allow
+			g.created[k], g.expires[k], g.period[k] = g.clock, o.ExpiresIn, o.Period
 		}
 	case "revoke":
 		if i := isLive(o.Master, o.Sess); i >= 0 {
@@ -176,8 +237,13 @@ func c16DrawOp(rt *rapid.T, first bool, live *[][2]int) c16Op {
 		*live = keep
 	case "stx", "mtx":
 		n := rapid.SampledFrom([]int{1, 1, 1, 2, 2, 3}).Draw(rt, "nmsgs")
+		conform := o.Kind == "stx" && rapid.IntRange(0, 3).Draw(rt, "conform") != 2
 		for i := 0; i < n; i++ {
-			o.Msgs = append(o.Msgs, c16DrawMsg(rt))
+			if conform {
+				o.Msgs = append(o.Msgs, c16MsgFor(rt, allowOf[[2]int{o.Master, o.Sess}]))
+			} else {
+				o.Msgs = append(o.Msgs, c16DrawMsg(rt))
+			}
 		}
 		o.Second = o.Kind == "stx" && rapid.IntRange(0, 6).Draw(rt, "second") == 4
 	}
@@ -188,8 +254,10 @@ func c16Draw(rt *rapid.T) c16Case {
 	n := rapid.IntRange(14, 30).Draw(rt, "nops")
 	c := c16Case{}
 	var live [][2]int
+	allowOf := map[[2]int][]int{}
+	g := &c16Gen{created: map[[2]int]int64{}, expires: map[[2]int]int64{}, period: map[[2]int]int64{}}
 	for i := 0; i < n; i++ {
-		c.Ops = append(c.Ops, c16DrawOp(rt, i == 0, &live))
+		c.Ops = append(c.Ops, c16DrawOp(rt, i == 0, &live, allowOf, g))
 	}
 	return c
 }
